@@ -425,9 +425,7 @@ class POP3CommandHandler:
         size = len(msg_bytes)
         msg_bytes = dot_stuff(msg_bytes)
         await self.client.push(
-            f"+OK {size} octets\r\n".encode("latin-1")
-            + msg_bytes
-            + b"\r\n.\r\n"
+            f"+OK {size} octets\r\n".encode("latin-1") + msg_bytes + b".\r\n"
         )
         return True
 
@@ -528,20 +526,19 @@ class POP3CommandHandler:
         headers = msg_headers_as_bytes(msg)
         body = msg_as_bytes(msg, render_headers=False)
 
-        # Body starts with a blank line separator; split into lines and
-        # take only the first num_lines.
+        # `msg_as_bytes` always ends with CRLF: drop the empty string after
+        # the final CRLF. `headers` already ends with the blank separator
+        # line.
         #
         body_lines = body.split(b"\r\n")
+        if body_lines and body_lines[-1] == b"":
+            body_lines = body_lines[:-1]
 
-        # Skip leading blank line if present (header/body separator).
-        #
-        if body_lines and body_lines[0] == b"":
-            body_lines = body_lines[1:]
-
-        truncated_body = b"\r\n".join(body_lines[:num_lines])
-        result = headers + b"\r\n" + truncated_body
+        result = headers + b"".join(
+            line + b"\r\n" for line in body_lines[:num_lines]
+        )
         result = dot_stuff(result)
-        await self.client.push(b"+OK\r\n" + result + b"\r\n.\r\n")
+        await self.client.push(b"+OK\r\n" + result + b".\r\n")
         return True
 
     ##################################################################
